@@ -1141,7 +1141,7 @@ def std(l, axis=None, ddof=0, **kw):
     args = [z3.simplify(to_real(zterm(x)) if not isinstance(x, Sym) else to_real(x.t)) for x in v]
     # np.std is a function: the same list (structurally) yields the same value
     from .sym import shash
-    key = (tuple(shash(a) for a in args), ddof)
+    key = (tuple(sorted(shash(a) for a in args)), ddof)     # np.std is symmetric in its arguments
     memo = ENG.path_cache.setdefault("std_by_args", {})
     if key in memo:
         return SNum(memo[key], "float64")
